@@ -25,14 +25,17 @@ def judgeLines (sepTok contentTok : String) (out : List String) : String :=
   let content := parseHexBytes (contentTok.drop 1).toString
   if sepTok == "s" then (if o.status == "err:create" then "ok" else "bad empty-separator-accepted")
   else if !o.wellFormed then s!"bad unparsable-impl-output {o.status}"
-  else if o.status != "ok" then s!"bad {o.status}"
   else
-    let expected :=
-      if sepTok == "-" then (specLines [10] content).map dropCR
-      else specLines (parseHexBytes (sepTok.drop 1).toString) content
-    if encodeRecs o.recs == encodeRecs (numberFrom 0 expected) then "ok"
-    else if o.recs.length != expected.length then s!"bad record-count {o.recs.length} expected {expected.length}"
-    else "bad wrong-line-text"
+    let sep := if sepTok == "-" then [10] else parseHexBytes (sepTok.drop 1).toString
+    -- a piece that (with its separator) does not fit the scanner's 64 KiB buffer must be reported as an error
+    if !fitsTok maxScanTokenSize sep content then
+      (if o.status == "err:run" then "ok" else "bad oversized-line-not-reported")
+    else if o.status != "ok" then s!"bad {o.status}"
+    else
+      let expected := if sepTok == "-" then (specLines sep content).map dropCR else specLines sep content
+      if encodeRecs o.recs == encodeRecs (numberFrom 0 expected) then "ok"
+      else if o.recs.length != expected.length then s!"bad record-count {o.recs.length} expected {expected.length}"
+      else "bad wrong-line-text"
 
 /-! #### the reorder queue replayed on the observed schedule -/
 
@@ -104,7 +107,7 @@ def judge (toks : List String) (out : List String) : String :=
     (match parseRows n.toNat! rest with
      | some (rows, _) => judgeJson false rows out
      | none => "bad unparsable-op")
-  | "proj" :: mask :: "json" :: _seed :: n :: rest =>
+  | "proj" :: _mask :: "json" :: _seed :: n :: rest =>
     (match parseRows n.toNat! rest with
      | some (rows, _) => judgeJson false rows out true
      | none => "bad unparsable-op")
